@@ -1136,6 +1136,11 @@ def evaluate(t, env, memo=None):
             if not hasattr(pat, "fullmatch") or not isinstance(subj, (str, bytes)):
                 raise CannotEval(repr(t)[:120])
             r = getattr(pat, op[2:])(subj)
+        elif op in ("m:sub", "m:subn", "m:findall") and len(t.args) >= 2:
+            vals_ = [evaluate(a, env, memo) for a in t.args]
+            if not hasattr(vals_[0], "fullmatch") or not all(isinstance(x, (str, bytes, int)) for x in vals_[1:]):
+                raise CannotEval(repr(t)[:120])
+            r = getattr(vals_[0], op[2:])(*vals_[1:])
         elif op in ("m:groups", "m:group", "m:end", "m:start", "m:span") and t.args:
             mo = evaluate(t.args[0], env, memo)
             if mo is None or not hasattr(mo, "groups"):
@@ -1155,6 +1160,13 @@ def evaluate(t, env, memo=None):
         elif op == "getslice" and len(t.args) == 3:
             b, lo, hi = (evaluate(a, env, memo) for a in t.args)
             r = b[lo:hi]
+        elif op == "getslice" and len(t.args) == 4:
+            b, lo, hi, st_ = (evaluate(a, env, memo) for a in t.args)
+            r = b[lo:hi:st_]
+        elif op == "b2i" and len(t.args) == 1:
+            r = int(bool(evaluate(t.args[0], env, memo)))
+        elif op == "sliceobj" and len(t.args) == 3:
+            r = slice(*[evaluate(a, env, memo) for a in t.args])
         elif op in ("elem",) and len(t.args) == 2 and (not isinstance(t.args[0], Ref) or env.get("__ref__")):
             b, i = (evaluate(a, env, memo) for a in t.args)
             r = b[i]
